@@ -100,6 +100,28 @@ impl WorkerSummary {
     }
 }
 
+/// A tolerated-finding candidate that the committed known-findings file does not list
+/// (as open) is a violation.
+pub fn effective(mut out: RunOutcome, known: &[crate::trace::KnownFinding]) -> RunOutcome {
+    if out.violation.is_none() {
+        if let Some(hit) = out.known.iter().find(|h| !known.iter().any(|k| &k.signature == *h)) {
+            let (prop, class) = hit.split_once(':').unwrap_or(("C00", hit.as_str()));
+            let mut v = Violation::new(
+                prop,
+                class,
+                json!({"note": "condition tolerated by the model only when listed in known_findings.jsonl"}),
+            );
+            v.step = out.events.len();
+            out.violation = Some(v);
+        }
+    }
+    out
+}
+
+fn known_open(path: &str) -> Vec<crate::trace::KnownFinding> {
+    load_known_findings(path).into_iter().filter(|k| k.status == "open").collect()
+}
+
 pub fn signature(v: &Violation) -> String {
     format!("{}:{}", v.property, v.class)
 }
@@ -169,6 +191,10 @@ pub fn run_one(tier: &str, check: &str, seed: u64, tmp: &Path, log: Option<&mut 
             with_runtime(crate::t3::run_generated(seed, tmp))
         }
         "t7" => crate::t7::run_batch(seed, 0, 4000),
+        "t4" => {
+            let evs = crate::t4::generate(seed);
+            with_runtime(crate::t4::run_events(seed, &evs, tmp, "g"))
+        }
         "t5" => {
             let (rt, h) = t5_env(tmp)?;
             let clients = crate::t5::generate(seed);
@@ -206,6 +232,13 @@ pub fn run_list(
                 .collect::<Result<_, _>>()?;
             with_runtime(crate::t3::run_events(seed, cfg, &evs, tmp, tag))
         }
+        "t4" => {
+            let evs: Vec<crate::t4::Ev> = events
+                .iter()
+                .map(|e| serde_json::from_value(e.clone()))
+                .collect::<Result<_, _>>()?;
+            with_runtime(crate::t4::run_events(seed, &evs, tmp, tag))
+        }
         "t7" => {
             let Some(k) = events.first().and_then(|e| e.get("case")).and_then(|c| c.as_u64()) else {
                 return crate::t7::run_batch(seed, 0, 0);
@@ -238,6 +271,7 @@ pub fn minimise(
     out: &RunOutcome,
     tmp: &Path,
     budget: usize,
+    known: &[crate::trace::KnownFinding],
 ) -> R<(Vec<serde_json::Value>, Violation, usize)> {
     let target = out.violation.clone().unwrap();
     let sig = signature(&target);
@@ -253,7 +287,7 @@ pub fn minimise(
             let mut cand = events.clone();
             cand.drain(i..end);
             execs += 1;
-            let r = run_list(tier, out.seed, &out.config, &cand, tmp, "m", None);
+            let r = run_list(tier, out.seed, &out.config, &cand, tmp, "m", None).map(|o| effective(o, known));
             match r {
                 Ok(o) if o.violation.as_ref().map(signature).as_deref() == Some(sig.as_str()) => {
                     // the run stops at the violation: drop the unexecuted tail too
@@ -327,21 +361,12 @@ fn cmd_run(args: &[String]) -> R<i32> {
                 "first_events": out.events.iter().take(25).collect::<Vec<_>>(),
             }));
         }
-        let mut unlisted = None;
         for hit in &out.known {
-            match known.iter().find(|k| &k.signature == hit) {
-                Some(k) => {
-                    *sum.known.entry(format!("property={} {}", k.property, k.what)).or_default() += 1;
-                }
-                None => unlisted = Some(hit.clone()),
+            if let Some(k) = known.iter().find(|k| &k.signature == hit) {
+                *sum.known.entry(format!("property={} {}", k.property, k.what)).or_default() += 1;
             }
         }
-        let mut out = out;
-        if let (Some(hit), None) = (&unlisted, &out.violation) {
-            // a tolerated-finding candidate that the committed file does not list is a violation
-            let (prop, class) = hit.split_once(':').unwrap_or(("C00", hit));
-            out.violation = Some(Violation::new(prop, class, json!({"note": "condition tolerated by the model only when listed in known_findings.jsonl"})));
-        }
+        let out = effective(out, &known);
         if let Some(v) = &out.violation {
             let sig = signature(v);
             if let Some(k) = known.iter().find(|k| k.signature == sig) {
@@ -357,7 +382,7 @@ fn cmd_run(args: &[String]) -> R<i32> {
                 continue;
             }
             // a violation must replay exactly; otherwise it is a harness problem, never a verdict
-            let again = run_list(&tier, out.seed, &out.config, &out.events, &tmp, "c", None)?;
+            let again = effective(run_list(&tier, out.seed, &out.config, &out.events, &tmp, "c", None)?, &known);
             if again.violation.as_ref().map(signature).as_deref() != Some(sig.as_str()) {
                 sum.harness_errors.push(format!(
                     "FLAKY-REPLAY seed {} signature {} did not reproduce (got {:?})",
@@ -368,7 +393,7 @@ fn cmd_run(args: &[String]) -> R<i32> {
                 continue;
             }
             seen_sigs.insert(sig.clone());
-            let (events, vmin, execs) = minimise(&tier, &out, &tmp, 120)?;
+            let (events, vmin, execs) = minimise(&tier, &out, &tmp, 120, &known)?;
             let _ = std::fs::create_dir_all(&replays);
             let path = replays.join(format!("{}-{:016x}.json", v.property, out.seed));
             let rf = ReplayFile {
@@ -413,9 +438,11 @@ fn cmd_replay(args: &[String]) -> R<i32> {
     let tmp = tmp_base(args);
     let rf: ReplayFile = serde_json::from_str(&std::fs::read_to_string(&file)?)?;
     let mut log = vec![];
-    let out = run_list(
-        &rf.tier, rf.seed, &rf.config, &rf.events, &tmp, "r", Some(&mut log),
-    )?;
+    let known_path = arg(args, "--known").unwrap_or("/verif/known_findings.jsonl".into());
+    let out = effective(
+        run_list(&rf.tier, rf.seed, &rf.config, &rf.events, &tmp, "r", Some(&mut log))?,
+        &known_open(&known_path),
+    );
     if flag(args, "--log") {
         for l in &log {
             println!("{l}");
